@@ -6,6 +6,7 @@ import (
 	"context"
 	"errors"
 	"runtime"
+	"strings"
 	"sync/atomic"
 	"testing/synctest"
 	"time"
@@ -289,6 +290,8 @@ type caseOut struct {
 	Trace    []Event  `json:"trace"`
 	Leftover []string `json:"leftover,omitempty"` // gates still waiting after cleanup
 	Leak     int      `json:"leak,omitempty"`     // goroutines that outlived the case
+	// LeakStacks is printed on stderr only (addresses are not canonical).
+	LeakStacks string `json:"-"`
 	Panic    string   `json:"panic,omitempty"`
 }
 
@@ -311,7 +314,6 @@ func (c *replayChooser) next(r *runner) (Action, bool) {
 
 // runCase must be called inside a synctest bubble.
 func runCase(ps int, ch chooser) (script []Action, out caseOut) {
-	base := runtime.NumGoroutine()
 	r := newRunner(ps)
 	for {
 		a, ok := ch.next(r)
@@ -328,10 +330,27 @@ func runCase(ps int, ch chooser) (script []Action, out caseOut) {
 	if len(out.Leftover) == 0 {
 		out.Leftover = nil
 	}
-	if n := runtime.NumGoroutine() - base; n > 0 {
-		out.Leak = n
-		buf := make([]byte, 1<<18)
-		out.LeakStacks = string(buf[:runtime.Stack(buf, true)])
-	}
+	out.Leak, out.LeakStacks = bubbleLeaks()
 	return script, out
+}
+
+// bubbleLeaks counts the goroutines of the current synctest bubble other than
+// the scheduler itself and the synctest plumbing: after cleanup there must be none.
+func bubbleLeaks() (int, string) {
+	buf := make([]byte, 1<<20)
+	buf = buf[:runtime.Stack(buf, true)]
+	n, txt := 0, ""
+	for _, g := range strings.Split(string(buf), "\n\n") {
+		head, _, _ := strings.Cut(g, "\n")
+		if !strings.Contains(head, "synctest bubble") {
+			continue
+		}
+		if strings.Contains(g, "wlrepl.runCase") || strings.Contains(g, "synctest.testingSynctestTest") ||
+			strings.Contains(g, "internal/synctest.Run") {
+			continue
+		}
+		n++
+		txt += g + "\n\n"
+	}
+	return n, txt
 }
